@@ -33,6 +33,7 @@ import os
 import re
 import subprocess
 import tempfile
+import time
 
 import lib
 from lib import cmd, Sym, import_impl, is_error
@@ -987,6 +988,200 @@ def run_cli(ctx, cnfgen):
                               dict(input=dict(text=t, mutation=mu), implementation=[r.returncode, err[-300:]], model=m), True,
                               site='cli-dimacs', cls='malformed-accepted' if r.returncode == 0 else 'traceback')
 
+# --------------------------------------------------------------------------
+# command line, writing: every registered family at realistic sizes
+# --------------------------------------------------------------------------
+def cli_child(argv, stdin_text=None):
+    """run the real command line in a fresh interpreter: (exit code, stdout bytes, stderr text)"""
+    env = dict(os.environ, PYTHONPATH=lib.REPO, CNFGEN_VERIF='1')
+    code = 'import sys; sys.argv = %r; from cnfgen.clitools.cnfgen import main; main()' % (argv,)
+    r = subprocess.run([lib.PY, '-W', 'ignore', '-c', code], cwd=lib.REPO, env=env, stdout=subprocess.PIPE, stderr=subprocess.PIPE,
+                       input=stdin_text, timeout=600)
+    return r.returncode, r.stdout, r.stderr.decode('utf-8', 'replace')
+
+
+def run_cli_write(ctx, cnfgen, quick):
+    """`cnfgen <family> ...` with the output options that select DIMACS (default, -of dimacs, -o FILE.cnf, -o FILE -of dimacs,
+    -q, --varnames), then `cnfgen dimacs FILE` on the written file: the bytes written by the real command line must be
+    print_dimacs (model) of the header, names, variable count and clauses of the formula object the command line builds."""
+    import importlib
+    import shutil
+    from concurrent.futures import ThreadPoolExecutor
+    from cnfgen.clitools.cnfgen import cli as cnfgen_cli
+    fams = []
+    for m in ('fam_c01', 'fam_c02', 'fam_c03'):
+        try:
+            fams += importlib.import_module(m).FAMILIES
+        except ImportError:
+            ctx.note('registry %s not present' % m)
+    if not fams:
+        return
+    per_family = 2 if quick else 6
+    tmp = tempfile.mkdtemp(prefix='c06cli-')
+    jobs = []
+    ndirs = 0
+    t_start = time.time()
+
+    def formula_of(argv):
+        """the formula object the command line builds (in-process, nothing is written)"""
+        try:
+            return cnfgen_cli(['cnfgen'] + argv, mode='formula')
+        except BaseException as e:  # noqa -- CLIError, SystemExit of argparse: the command line refuses these parameters
+            try:
+                from cnfgen.clitools import msg
+                msg._prefix = ''          # msg_prefix() does not restore its state after an exception
+            except Exception:  # noqa
+                pass
+            return None
+
+    for fam in fams:
+        if not fam.get('cli'):
+            continue
+        ps = fam['params'](ctx.rng, 'quick' if quick else 'thorough')
+        if quick:
+            cands = [q for q in ps if q.get('big')][:1] + ps[-3:] + ps[len(ps) // 3:len(ps) // 3 + 1]
+        else:
+            cands = [q for q in ps if q.get('big')][:4] + ps[-8:] + ps[len(ps) // 3:len(ps) // 3 + 2]
+        built = []
+        for q in cands:
+            ndirs += 1                      # one directory per candidate: `cli` writes graph files with fixed names
+            sub = os.path.join(tmp, 'j%d' % ndirs)
+            os.makedirs(sub, exist_ok=True)
+            try:
+                argv = fam['cli'](q, sub)
+            except Exception:  # noqa
+                argv = None
+            if argv is None:
+                continue
+            argv = [str(a) for a in argv]
+            F = formula_of(argv)
+            if F is None:
+                ctx.tally('cli-write: command line refuses the parameters', fam['name'])
+                continue
+            if any(b[1] == argv for b in built):
+                continue
+            built.append((len(F), argv, F, sub))
+        built.sort(key=lambda b: -b[0])
+        for size, argv, F, sub in built[:per_family]:
+            jobs.append(dict(fam=fam['name'], argv=argv, F=F, sub=sub))
+    # the variants, rotated over the jobs (all four for every job in the thorough tier)
+    variants = ['default', 'of-dimacs-varnames', 'quiet-o-file.cnf', 'o-file-of-dimacs-varnames']
+    runs = []
+    for i, j in enumerate(jobs):
+        for v in (variants[i % 4:i % 4 + 1] if quick else variants):
+            out = os.path.join(j['sub'], 'out-%d.cnf' % len(runs)) if v == 'quiet-o-file.cnf' else os.path.join(j['sub'], 'out-%d' % len(runs))
+            opts = {'default': [], 'of-dimacs-varnames': ['-of', 'dimacs', '--varnames'], 'quiet-o-file.cnf': ['-q', '-o', out],
+                    'o-file-of-dimacs-varnames': ['-o', out, '-of', 'dimacs', '--varnames']}[v]
+            runs.append(dict(j, variant=v, opts=opts, out=out if '-o' in opts else None,
+                             header='-q' not in opts, names='--varnames' in opts))
+    t_sel = time.time()
+    with ThreadPoolExecutor(max_workers=4) as ex:
+        results = list(ex.map(lambda r: cli_child(['cnfgen'] + r['opts'] + r['argv']), runs))
+    t_run = time.time()
+    reqs = []
+    for r, (code, out, err) in zip(runs, results):
+        F = r['F']
+        r['n'], r['clauses'] = F.number_of_variables(), [list(c) for c in F]
+        r['labels'] = list(F.all_variable_labels()) if r['names'] else None
+        F.header['command line'] = 'cnfgen ' + ' '.join(r['opts'] + r['argv'])      # as cli() records it for this argv
+        r['hdr'] = header_for_model(F) if r['header'] else None
+        r['code'], r['err'] = code, err
+        if r['out'] is not None:
+            try:
+                with open(r['out'], 'r', newline='', encoding='utf-8') as f:
+                    r['text'] = f.read()
+            except OSError:
+                r['text'] = None
+            r['stdout'] = out.decode('utf-8', 'replace')
+        else:
+            r['text'] = out.decode('utf-8', 'replace')
+            r['stdout'] = ''
+        reqs.append(cmd('print_dimacs', opt(r['hdr']), opt(r['labels']), r['n'], r['clauses']))
+        reqs.append(cmd('parse_dimacs', True, r['text'] if r['text'] is not None and latin1(r['text']) else ''))
+    reps = ctx.model.batch(reqs)
+    reread = []
+    for k, r in enumerate(runs):
+        mp, mr = reps[2 * k], reps[2 * k + 1]
+        descr = dict(argv=['cnfgen'] + r['opts'] + r['argv'], family=r['fam'], variant=r['variant'], n=r['n'], clauses='%d clauses' % len(r['clauses']))
+        ctx.count('cli-write', (r['fam'], tuple(r['opts'] + r['argv'])), len(r['clauses']) > 0, sample=descr)
+        ctx.tally('cli-write family', r['fam'])
+        ctx.tally('cli-write variant', r['variant'])
+        ctx.tally('cli-write clauses', '0' if not r['clauses'] else '1-999' if len(r['clauses']) < 1000 else '1000-99999' if len(r['clauses']) < 100000 else '100000+')
+        if r['code'] != 0 or 'Traceback' in r['err'] or r['text'] is None:
+            ctx.disagreements_checked += 1
+            ctx.violation('counterexample', 'the command line exits with %d%s on parameters for which it builds a formula' %
+                          (r['code'], ' and a traceback' if 'Traceback' in r['err'] else ''),
+                          dict(input=descr, implementation=[r['code'], r['err'][-400:]]), True, site='cli-write', cls='exit-%d' % r['code'])
+            continue
+        if is_error(mp) or is_error(mr):
+            ctx.violation('correspondence', 'model error', dict(input=descr, model=[mp if is_error(mp) else 'ok', mr if is_error(mr) else 'ok']),
+                          False, site='model-error', cls='cli-write')
+            continue
+        if r['out'] is not None and r['stdout'] != '':
+            ctx.violation('counterexample', 'with -o FILE the command line also writes to standard output', dict(input=descr, stdout=r['stdout'][:200]),
+                          True, site='cli-write', cls='stdout-not-empty')
+            continue
+        if mp != r['text']:
+            ctx.disagreements_checked += 1
+            i = next((q for q in range(min(len(mp), len(r['text']))) if mp[q] != r['text'][q]), min(len(mp), len(r['text'])))
+            if mr != ['ok', r['n'], r['clauses']]:
+                ctx.violation('counterexample', 'the DIMACS text written by the command line does not denote the formula it built '
+                              '(verified reader: %r)' % (mr[:2],), dict(input=descr, first_difference_at=i, implementation=r['text'][max(0, i - 40):i + 80],
+                                                                        model=mp[max(0, i - 40):i + 80], theorem='parse_sound'), True,
+                              site='cli-write', cls='denotation')
+            else:
+                ctx.violation('correspondence', 'the DIMACS text written by the command line differs from the model (Dimacs.v print_dimacs)',
+                              dict(input=descr, first_difference_at=i, implementation=r['text'][max(0, i - 40):i + 80], model=mp[max(0, i - 40):i + 80],
+                                   correspondence='Dimacs.v print_dimacs <-> cnfgen command line output'), False, site='cli-write', cls='text-differs')
+            continue
+        if r['out'] is not None:
+            reread.append(r)
+    # `cnfgen dimacs FILE` on the files just written: the same variables and clauses, written again
+    reread = reread[:6] if quick else reread[:60]
+    rr = []
+    for i, r in enumerate(reread):
+        opts = [[], ['-q'], ['--varnames']][i % 3]
+        argv = opts + ['dimacs', r['out']]
+        F2 = formula_of(argv)
+        rr.append(dict(r=r, argv=argv, F2=F2, header='-q' not in opts, names='--varnames' in opts))
+    with ThreadPoolExecutor(max_workers=4) as ex:
+        results = list(ex.map(lambda x: cli_child(['cnfgen'] + x['argv']), rr))
+    reqs = []
+    for x in rr:
+        F2 = x['F2']
+        if F2 is None:
+            reqs.append(cmd('print_Z', 0))
+            continue
+        F2.header['command line'] = 'cnfgen ' + ' '.join(x['argv'])
+        reqs.append(cmd('print_dimacs', opt(header_for_model(F2) if x['header'] else None),
+                        opt(list(F2.all_variable_labels()) if x['names'] else None), F2.number_of_variables(), [list(c) for c in F2]))
+    reps = ctx.model.batch(reqs) if reqs else []
+    for x, (code, out, err), mp in zip(rr, results, reps):
+        r = x['r']
+        descr = dict(argv=['cnfgen'] + x['argv'], file_written_by=['cnfgen'] + r['opts'] + r['argv'], n=r['n'], clauses='%d clauses' % len(r['clauses']))
+        ctx.count('cli-reread', tuple(x['argv']), len(r['clauses']) > 0, sample=descr)
+        text = out.decode('utf-8', 'replace')
+        F2 = x['F2']
+        if F2 is None or code != 0 or 'Traceback' in err:
+            ctx.disagreements_checked += 1
+            ctx.violation('counterexample', '`cnfgen dimacs FILE` refuses (exit %d) a file that `cnfgen -o FILE` wrote' % code,
+                          dict(input=descr, implementation=[code, err[-400:]]), True, site='cli-dimacs', cls='rejects-own-output')
+            continue
+        if [F2.number_of_variables(), [list(c) for c in F2]] != [r['n'], r['clauses']]:
+            ctx.disagreements_checked += 1
+            ctx.violation('counterexample', '`cnfgen dimacs FILE` reads another formula than the one `cnfgen -o FILE` wrote',
+                          dict(input=descr, read=[F2.number_of_variables(), len(F2)]), True, site='cli-dimacs', cls='formula')
+            continue
+        if mp != text:
+            ctx.disagreements_checked += 1
+            i = next((q for q in range(min(len(mp), len(text))) if mp[q] != text[q]), min(len(mp), len(text)))
+            ctx.violation('correspondence', 'the text written by `cnfgen dimacs FILE` differs from the model (Dimacs.v print_dimacs)',
+                          dict(input=descr, first_difference_at=i, implementation=text[max(0, i - 40):i + 80], model=mp[max(0, i - 40):i + 80]),
+                          False, site='cli-dimacs', cls='text-differs')
+    shutil.rmtree(tmp, ignore_errors=True)
+    ctx.note('cli-write: %.0f s choosing instances, %.0f s running %d command lines, %.0f s comparing'
+             % (t_sel - t_start, t_run - t_sel, len(runs), time.time() - t_run))
+
 
 def run(ctx):
     cnfgen = import_impl()
@@ -997,6 +1192,7 @@ def run(ctx):
     run_unicode(ctx, cnfgen, quick)
     if not quick:
         run_cli(ctx, cnfgen)
+    run_cli_write(ctx, cnfgen, quick)
     ctx.assumptions.append('integers of more than 4300 digits: Python refuses to print them; theorems carry `printable`')
     ctx.assumptions.append('characters above 255 are outside the model (robustness stream only)')
     if TMPDIR:
